@@ -185,3 +185,48 @@ func HarnessPresentedCertAcrossExpiry() {
 		vAssert(!leaf.NotBefore.After(now) && !now.After(leaf.NotAfter), "c11.expired-cert-served")
 	}
 }
+
+// HarnessTunnelOneAnswerPerRequest: every request on a tunnel gets exactly ONE response - also
+// a Range request the proxy refuses itself (the range does not fit the stored representation),
+// a range it serves, and a malformed one - and the exchange after it is answered normally.
+func HarnessTunnelOneAnswerPerRequest() {
+	e := newEnv(symChoice(2), 1<<30)
+	if symChoice(2) == 1 {
+		e.cfg.Proxy.RetryOnInvalidRange.Stage(true)
+		e.cfg.Proxy.RetryOnInvalidRange.CommitStaged()
+		vDropPending()
+	}
+	h := hdr("Cache-Control", "max-age=60", "Etag", "\"a\"")
+	e.o.script = []originResp{{status: 200, header: h, body: []byte("0123456789")}}
+	vClockFreeze(true)
+	c0 := e.plain(newReq("GET", "o.test", "/obj", "", nil))
+	vAssert(c0.status == 200, "c10.priming-failed")
+	rng := []string{"bytes=50-60", "bytes=2-5", "bytes=5-2", "bytes=-0"}[symChoice(4)]
+	s := &rawSink{}
+	vSetResponseSink(s.write)
+	reqs := []*http.Request{newReq("GET", "o.test", "/obj", "", hdr("Range", rng)), newReq("GET", "o.test", "/obj", "", nil)}
+	i := 0
+	var answersBefore []int
+	vSetRequestSource(func() (*http.Request, error) {
+		answersBefore = append(answersBefore, len(s.caps))
+		if i >= len(reqs) {
+			return nil, io.EOF
+		}
+		i++
+		return reqs[i-1], nil
+	})
+	e.p.ca = stubCA{}
+	w := &hijackWriter{recWriter: recWriter{h: http.Header{}}, conn: &fakeConn{}}
+	e.p.handleCONNECT(responder.NewHTTPResponder(w), newReq("CONNECT", "o.test:443", "", "", nil))
+	vReach("tunnel-closed")
+	// answersBefore[k]: responses written when request k was about to be read (the first one is
+	// the answer to CONNECT)
+	vAssert(len(answersBefore) == 3, "c10.later-exchange-on-the-tunnel-unanswered")
+	for k := 1; k < len(answersBefore); k++ {
+		vAssert(answersBefore[k]-answersBefore[k-1] == 1, "c10.not-exactly-one-response-to-a-request")
+	}
+	if len(s.caps) == 3 {
+		last := s.caps[2]
+		vAssert(last.status == 200 && string(last.body) == "0123456789", "c10.later-exchange-on-the-tunnel-differs")
+	}
+}
